@@ -159,11 +159,12 @@ def rules(ck, P):
                 stats["auto"] += 1
                 continue
             e = tst.get(s.key)
-            if e is not None:
+            lapsed = census.entry_lapsed(e, s) if e is not None else None
+            if e is not None and lapsed is None:
                 stats["reviewed"] += 1
                 ck.ok("R-STREAM-TOTAL", s.key, "%s: %s" % (e["class"], e["reason"]), s.loc)
                 continue
-            if s.key in t19:
+            if s.key in t19 and census.entry_lapsed(t19[s.key], s) is None and lapsed is None:
                 stats["shared-with-C19"] += 1
                 continue
             stats["violation"] += 1
